@@ -296,8 +296,8 @@ def rule_quote_or_class(cm, rep, rid):
                 nsrc += 1
             if lex[0] in ('lit',) or (lex[0] == 'cat' and not L.from_source(lex)):
                 continue        # compiler constants and generated names
-            if lex[0] == 'intstr':
-                continue
+            if lex[0] in ('intstr', 'repr'):
+                continue        # a decimal integer / the result of repr(): complete literals wherever they are pasted
             try:
                 td = token_dfa(cm, L, h, ms, v)
             except (ValueError, KeyError) as e:
@@ -307,7 +307,8 @@ def rule_quote_or_class(cm, rep, rid):
                 continue
             w = td.subset_of(ident)
             if w is not None:
-                bad.append((v, 'e.g. %r is not a Python identifier' % w))
+                bad.append((v, 'e.g. %r is neither the result of repr(), nor a decimal integer, nor always a Python identifier '
+                               '(quoting done by hand is not accepted: it has to be right for every character)' % w))
                 continue
             w = td.intersect(kw).witness()
             if w is not None:
